@@ -1,6 +1,9 @@
 import UsualProofs.C12.Safe
 /-! A function that returns `false` leaves the buffer(s) exactly as they were
 (cursors, contents, flags — the whole record). -/
+set_option linter.unusedSimpArgs false
+set_option linter.unusedVariables false
+
 namespace UsualProofs.C12
 open Usual.C12
 
